@@ -217,7 +217,8 @@ class RepeatedNodeWrapper(MutableSequence[_M]):
             self._notify()
 
     def insert(self, index: int, value: _M) -> None:
-        index = min(index, len(self._repeated.items))
+        length = len(self._repeated.items)
+        index = max(index + length, 0) if index < 0 else min(index, length)
         self._insert_tokens(index, [value])
         value.reattach(self._repeated.token_store)
         self._repeated.items.insert(index, value)
